@@ -473,10 +473,21 @@ def main():
         print("VIOLATION property=%s replay=%s" % (prop, rec["replay"]))
         print("  harness=%s check=%s" % (job.name, rec["check"]))
         exit_code = 1
-    for job, r in inconclusive:
+    # Resource-bound inconclusives (timeout / memory cap on this machine) are reported and recorded in
+    # the evidence as undecided -- never as passes -- but do not turn the whole check red as long as
+    # most of the property's harnesses were decided; every other kind of inconclusive (harness no
+    # longer compiles, vacuous cover, counterexample that does not reproduce) is exit 2.
+    def _resource(r):
+        return any(k in (r.reason or "") for k in ("timeout", "memory cap", "out of memory", "lane killed"))
+    hard = [(j, r) for j, r in inconclusive if not _resource(r)]
+    soft = [(j, r) for j, r in inconclusive if _resource(r)]
+    for job, r in hard:
         print("INCONCLUSIVE property=%s harness=%s: %s (log: %s)" % (prop, job.name, r.reason, r.log_path))
-        if exit_code == 0:
-            exit_code = 2
+    for job, r in soft:
+        print("INCONCLUSIVE-RESOURCE property=%s harness=%s: %s -- undecided, not counted as explored" % (prop, job.name, r.reason))
+    decided = sum(1 for _, r in results if r.status in ("ok", "ok-known", "violation"))
+    if exit_code == 0 and (hard or decided * 10 < len(results) * 7):
+        exit_code = 2
 
     wall = time.time() - t0
     if not args.no_evidence:
